@@ -170,7 +170,9 @@ def run_cases(cases):
     hashes = set()
     samples = []
     p = probe()
-    obs = p.run([lc.calc_case(txs) for txs, _ in cases])
+    reqs = [lc.calc_case(txs, front=True) for txs, _ in cases]
+    cnt["ledgers_entered_as_DSL_text(random lexical style)"] += sum(1 for r in reqs if "dsl" in r)
+    obs = p.run(reqs)
     for (txs, feats), o in zip(cases, obs):
         vs = oracle(txs, o, cnt, sets)
         for f in feats:
@@ -202,7 +204,7 @@ def run_shard(desc):
 
 def replay(case):
     cnt = Counter()
-    o = probe().one(lc.calc_case(case["txs"]))
+    o = probe().one(lc.calc_case(case["txs"], front=True))
     vs = oracle(case["txs"], o, cnt, {})
     for x in vs:
         x["signature"] = signature(x, case["txs"])
